@@ -75,6 +75,8 @@ impl WriteCircuitBreaker {
             CircuitState::Open => {
                 // Check if enough time has passed to try recovery
                 let now = current_timestamp();
+                #[cfg(sierradb_verif)]
+                crate::verif::point("cb.allow.after_clock", &[]);
                 let last_failure = self.last_failure_time.load(Ordering::Acquire);
 
                 if now - last_failure >= self.recovery_timeout.as_millis() as u64 {
@@ -147,6 +149,8 @@ impl WriteCircuitBreaker {
         match self.current_state() {
             CircuitState::Open => {
                 let now = current_timestamp();
+                #[cfg(sierradb_verif)]
+                crate::verif::point("cb.recovery.after_clock", &[]);
                 let last_failure = self.last_failure_time.load(Ordering::Acquire);
                 let elapsed = Duration::from_millis(now - last_failure);
 
@@ -183,6 +187,8 @@ impl WriteCircuitBreaker {
     }
 
     fn transition_to_half_open(&self) {
+        #[cfg(sierradb_verif)]
+        crate::verif::point("cb.half_open.enter", &[]);
         // Only transition if we're currently Open
         let _ = self.state.compare_exchange(
             CircuitState::Open as u8,
@@ -190,6 +196,8 @@ impl WriteCircuitBreaker {
             Ordering::AcqRel,
             Ordering::Acquire,
         );
+        #[cfg(sierradb_verif)]
+        crate::verif::point("cb.half_open.after_cas", &[]);
         // Reset half-open counters
         self.half_open_call_count.store(0, Ordering::Release);
         self.half_open_success_count.store(0, Ordering::Release);
@@ -206,6 +214,10 @@ impl WriteCircuitBreaker {
 }
 
 fn current_timestamp() -> u64 {
+    #[cfg(sierradb_verif)]
+    if let Some(t) = crate::verif::clock_ms() {
+        return t;
+    }
     SystemTime::now()
         .duration_since(UNIX_EPOCH)
         .unwrap_or_default()
